@@ -12,7 +12,9 @@ From Coq Require Import ZArith List Bool.
 From Verif Require Import Jit.JitModel Jit.JitBits Jit.JitBlockProofs Jit.JitProofs Jit.JitWitness.
 From Verif Require Import Jit.JitBytes Jit.JitFill Jit.JitCursorModel Jit.JitCursorProofs Jit.JitWords.
 From Verif Require Import Containers.BitVecModel.
-From Verif Require Import Jit.JitSpec Jit.JitSpecProofs.
+From Verif Require Import Jit.JitSpec Jit.JitSpecProofs Jit.JitIter.
+From Verif Require Import Containers.RangeIterModel.
+From Verif Require Import Jit.JitStats Jit.JitVmModel Jit.JitVmProofs Jit.JitTree.
 Import ListNotations.
 Local Open Scope Z_scope.
 
@@ -323,3 +325,81 @@ Example C09_judge_not_vacuous :
   spec_run 64 1 1 [] [EAlloc 100 0 64 128 131072 0; EAlloc 64 0 128 64 131072 0] 0 = Datatypes.inl 1 /\
   spec_run 64 1 1 [] [EAlloc 131009 0 64 131072 131072 0] 0 = Datatypes.inl 0 /\ twf [].
 Proof. exact (conj spec_rejects_overlap (conj spec_rejects_outside_block twf_nil)). Qed.
+
+(* ================================================================ round 3 *)
+
+(* ---------------------------------------------------------------- the word level in full generality: for EVERY word size
+   W > 0 (64 in the code), every word vector ws (representing the bit mask u), every window [start, E) such that no free
+   bit lies between E and the end of its word, and every request n >= 1, the scan loop of JitAllocator::alloc over
+   BitVectorRangeIterator<BitWord,0> (C18's model of init/next_range with the range hint; `wscan` adds alloc's
+   `size_t range_size = range_end - range_start`, the first-fit test and the search_start/largest bookkeeping) returns
+   exactly what the bit-level `scan` of the model returns.  Supersedes the bounded C09_word_scan_*_partial theorems. *)
+Theorem C09_word_scan : forall W, 0 < W -> forall ws, words_ok W ws -> forall E, 0 <= E <= W * zlen ws ->
+  (forall j, E <= j < Eup W E -> F W ws j = false) -> W * zlen ws < 2 ^ 64 ->
+  forall u, repr W ws u -> forall start n, 0 <= start <= E -> 1 <= n ->
+  wscan W ws start E n = scan u start E n.
+Proof. exact wscan_eq_scan. Qed.
+Print Assumptions C09_word_scan.
+
+(* ... and the proviso is what window soundness provides: in every reachable state, for every non-full block whose used
+   bit vector is held in W-bit words, the word-level scan over the block's search window is the model's scan *)
+Theorem C09_alloc_scan_word_level : forall c st b W ws n,
+  cfg_ok c -> reach c st -> In b (blocks st) -> b_aused b < b_area b ->
+  0 < W -> words_ok W ws -> repr W ws (b_used b) -> b_area b = W * zlen ws -> W * zlen ws < 2 ^ 64 -> 1 <= n ->
+  wscan W ws (b_ss b) (b_se b) n = scan (b_used b) (b_ss b) (b_se b) n.
+Proof. exact alloc_scan_word_level. Qed.
+Print Assumptions C09_alloc_scan_word_level.
+
+(* ---------------------------------------------------------------- virtual memory as an oracle (JitVmModel.alloc_vm c st size vm:
+   vm = does VirtMem::alloc / alloc_dual_mapping of JitAllocator_new_block succeed).  A failing request answers
+   kOutOfMemory, keeps the invariant, and leaves the set of live spans, the statistics, the block ids and nextid unchanged
+   (only search caches may have been refreshed by the block loop); if no new block was needed nothing differs from alloc *)
+Theorem C09_vm_failure : forall c st size, cfg_ok c -> ginv c st ->
+  let r := alloc_vm c st size false in
+  ginv c (fst r) /\
+  (snd r = RAlloc OutOfMemory 0 0 0 ->
+     all_live (blocks (fst r)) = all_live (blocks st) /\ statistics c (fst r) = statistics c st /\
+     nextid (fst r) = nextid st /\ map b_id (blocks (fst r)) = map b_id (blocks st)) /\
+  (snd r <> RAlloc OutOfMemory 0 0 0 -> r = alloc c st size).
+Proof. exact alloc_vm_fail. Qed.
+Print Assumptions C09_vm_failure.
+
+(* the allocator invariant over histories in which any alloc may hit a failing virtual-memory request *)
+Theorem C09_invariant_with_vm_failures : forall c st, cfg_ok c -> reach_vm c st -> ginv c st.
+Proof. exact reach_vm_ginv. Qed.
+Print Assumptions C09_invariant_with_vm_failures.
+
+(* ---------------------------------------------------------------- statistics with any number of pools *)
+Theorem C09_stats_blocks : forall c st, cfg_ok c -> reach c st ->
+  s_blocks (statistics c st) = Z.of_nat (length (blocks st)).
+Proof. exact stats_blocks. Qed.
+Print Assumptions C09_stats_blocks.
+
+Theorem C09_stats_per_pool : forall c st p, cfg_ok c -> reach c st -> 0 <= p < c_pools c ->
+  p_count (get_pool st p) = sump onef p (blocks st) /\
+  p_tsize (get_pool st p) * pool_gran c p = sump (fun b => b_area b * pool_gran c (b_pool b)) p (blocks st) /\
+  p_tused (get_pool st p) * pool_gran c p =
+    sump (fun b => (b_pad b + sum_len (b_live b)) * pool_gran c (b_pool b)) p (blocks st).
+Proof. exact stats_per_pool. Qed.
+Print Assumptions C09_stats_per_pool.
+
+(* ---------------------------------------------------------------- lookup of a block by address (ArenaTree::get with the block's
+   range comparators) over any search tree whose in-order mappings are increasing and disjoint (the red-black shape is
+   irrelevant; `range_get` is the same descent over C18's heap representation, `range_get_to_bst`): an address inside a
+   block's mapping finds that block — which is what the model's find_block by id stands for — and an address outside every
+   mapping finds nothing.  `base` = address oracle (block id -> rx base). *)
+Theorem C09_tree_lookup : forall c st base t,
+  cfg_ok_bytes c -> reach c st ->
+  (forall e, In e (elems t) <-> exists b, In b (blocks st) /\ e = block_ent base b) ->
+  ordered (elems t) ->
+  (forall b off, In b (blocks st) -> 0 <= off < b_bytes b ->
+     lookup t (base (b_id b) + off) = Some (b_id b) /\ find_block (b_id b) (blocks st) = Some b) /\
+  (forall ptr, (forall b, In b (blocks st) -> ~ (base (b_id b) <= ptr < base (b_id b) + b_bytes b)) ->
+     lookup t ptr = None).
+Proof. exact tree_lookup_is_find_block. Qed.
+Print Assumptions C09_tree_lookup.
+
+Theorem C09_tree_lookup_heap : forall fuel h size_of n ptr,
+  range_get fuel h size_of n ptr = match lookup (to_bst fuel h size_of n) ptr with Some i => i | None => 0 end.
+Proof. exact range_get_to_bst. Qed.
+Print Assumptions C09_tree_lookup_heap.
